@@ -8,6 +8,7 @@ package hrpc
 // ---- cell decoding (C11: no byte string can make the decoders panic; C10: round trip) ----
 
 //@ func hrpc.cellFromCellBlock
+//@   dead return 7 "defensive re-check of the total length: implied by the checks before it (the generator proves it dead)"
 //@   modifies nothing
 //@   panics never[C11]
 //@   ensures[C11] r2 != nil ==> r0 == nil && r1 == 0
@@ -51,6 +52,15 @@ package hrpc
 //@   panics never[C11]
 //@   ensures[C11] r1 == nil ==> r0 <= len(b)
 //@   loop 1 invariant readLen <= len(b)
+// the cellblock is cut into results as the response says (C06): one result per cells_per_result entry, with that many
+// cells, flagged partial exactly when its partial_flag_per_result entry exists and is true
+//@   ensures[C06] r1 == nil ==> len(cast(m, "*pb.ScanResponse").Results) == len(cast(m, "*pb.ScanResponse").GetCellsPerResult())
+//@   ensures[C06] r1 == nil ==> forall(k, 0 <= k && k < len(cast(m, "*pb.ScanResponse").Results), cast(m, "*pb.ScanResponse").Results[k] != nil && len(cast(m, "*pb.ScanResponse").Results[k].Cell) == cast(m, "*pb.ScanResponse").GetCellsPerResult()[k] && cast(m, "*pb.ScanResponse").Results[k].Partial != nil && *cast(m, "*pb.ScanResponse").Results[k].Partial == (k < len(cast(m, "*pb.ScanResponse").GetPartialFlagPerResult()) && cast(m, "*pb.ScanResponse").GetPartialFlagPerResult()[k]))
+//@   loop 1 invariant[C06,C11] len(scanResp.Results) == len(cellsPerResult)
+//@   loop 1 invariant[C06] forall(k, 0 <= k && k < i, scanResp.Results[k] != nil && allocated(scanResp.Results[k]))
+//@   loop 1 invariant[C06] forall(k, 0 <= k && k < i, len(scanResp.Results[k].Cell) == cellsPerResult[k])
+//@   loop 1 invariant[C06] forall(k, 0 <= k && k < i, scanResp.Results[k].Partial != nil)
+//@   loop 1 invariant[C06] forall(k, 0 <= k && k < i, *scanResp.Results[k].Partial == (k < len(partials) && partials[k]))
 
 //@ func hrpc.(*Get).DeserializeCellBlocks
 //@   requires typeis(m, "*pb.GetResponse")
@@ -319,6 +329,11 @@ package hrpc
 //@   panics never[C01]
 //@   ensures[C01] typeis(r0, "*pb.GetRequest") && ownSpecifier(cast(r0, "*pb.GetRequest").Region, g.region)
 //@   ensures[C01] cast(r0, "*pb.GetRequest").Get != nil && sameslice(cast(r0, "*pb.GetRequest").Get.Row, g.key)
+// optional fields are present exactly when they differ from the server's default, and carry the call's own value (C05)
+//@   ensures[C05] (g.maxVersions != 1) == (cast(r0, "*pb.GetRequest").Get.MaxVersions != nil) && (g.maxVersions != 1 ==> *cast(r0, "*pb.GetRequest").Get.MaxVersions == g.maxVersions)
+//@   ensures[C05] cast(r0, "*pb.GetRequest").Get.TimeRange != nil && (g.fromTimestamp != 0) == (cast(r0, "*pb.GetRequest").Get.TimeRange.From != nil) && (g.fromTimestamp != 0 ==> *cast(r0, "*pb.GetRequest").Get.TimeRange.From == g.fromTimestamp)
+//@   ensures[C05] (g.toTimestamp != 18446744073709551615) == (cast(r0, "*pb.GetRequest").Get.TimeRange.To != nil) && (g.toTimestamp != 18446744073709551615 ==> *cast(r0, "*pb.GetRequest").Get.TimeRange.To == g.toTimestamp)
+//@   ensures[C05] (g.storeOffset != 0) == (cast(r0, "*pb.GetRequest").Get.StoreOffset != nil) && (g.storeOffset != 0 ==> *cast(r0, "*pb.GetRequest").Get.StoreOffset == g.storeOffset)
 // a mutation request names the region its call is bound to and carries the call's own row key
 //@ func hrpc.(*Mutate).toProto
 //@   requires m.region != nil && RegionSpecifierRegionName != nil && *RegionSpecifierRegionName == 1
@@ -331,6 +346,9 @@ package hrpc
 //@   requires *MutationProtoDeleteFamilyVersion == 3 && *MutationProtoDeleteFamily == 2 && *MutationProtoDeleteOneVersion == 0 && *MutationProtoDeleteMultipleVersions == 1
 //@   ensures[C01] r0 != nil && ownSpecifier(r0.Region, m.region)
 //@   ensures[C01] r0.Mutation != nil && sameslice(r0.Mutation.Row, m.key)
+// kind, durability and timestamp of the mutation are the call's own (the timestamp is omitted for "latest")
+//@   ensures[C05] r0.Mutation.MutateType != nil && *r0.Mutation.MutateType == m.mutationType && r0.Mutation.Durability == durabilities[m.durability]
+//@   ensures[C05] (m.timestamp != 18446744073709551615) == (r0.Mutation.Timestamp != nil) && (m.timestamp != 18446744073709551615 ==> *r0.Mutation.Timestamp == m.timestamp)
 //@ func hrpc.(*baseQuery).Priority
 //@   modifies nothing
 //@   ensures r0 == bq.priority
@@ -338,3 +356,12 @@ package hrpc
 //@   modifies nothing
 //@ func hrpc.RenewInterval
 //@   modifies nothing
+// a scan request names the region it is bound to; an open-scanner request carries the scan's own bounds and direction, a
+// continuation carries the scanner id and no scan description; row count and close flag are the call's own (C05)
+//@ func hrpc.(*Scan).ToProto
+//@   requires s.region != nil && RegionSpecifierRegionName != nil && *RegionSpecifierRegionName == 1
+//@   ensures[C05] typeis(r0, "*pb.ScanRequest") && ownSpecifier(cast(r0, "*pb.ScanRequest").Region, s.region)
+//@   ensures[C05] cast(r0, "*pb.ScanRequest").NumberOfRows != nil && *cast(r0, "*pb.ScanRequest").NumberOfRows == s.numberOfRows && cast(r0, "*pb.ScanRequest").CloseScanner != nil && *cast(r0, "*pb.ScanRequest").CloseScanner == s.closeScanner
+//@   ensures[C05] s.scannerID != 18446744073709551615 ==> cast(r0, "*pb.ScanRequest").Scan == nil && cast(r0, "*pb.ScanRequest").ScannerId != nil && *cast(r0, "*pb.ScanRequest").ScannerId == s.scannerID
+//@   ensures[C05] s.scannerID == 18446744073709551615 ==> cast(r0, "*pb.ScanRequest").ScannerId == nil && cast(r0, "*pb.ScanRequest").Scan != nil && sameslice(cast(r0, "*pb.ScanRequest").Scan.StartRow, s.startRow) && sameslice(cast(r0, "*pb.ScanRequest").Scan.StopRow, s.stopRow)
+//@   ensures[C05] s.scannerID == 18446744073709551615 ==> (s.reversed == (cast(r0, "*pb.ScanRequest").Scan.Reversed != nil)) && (s.reversed ==> *cast(r0, "*pb.ScanRequest").Scan.Reversed)
